@@ -1,16 +1,17 @@
 import JL.Generated.Fns
+import JL.Lemmas.TieAuto
 /-! tie: `split_sign`, as translated from the crate's current source, is the model's function - for every input -/
 namespace JL.Tie
 open JL
 
 theorem split_sign (s : Str) : Gen.split_sign s = JsOp.splitSign s := by
-  unfold Gen.split_sign JsOp.splitSign
+  -- the cases of the model: empty, a leading `-`, a leading `+`, any other first character
   rcases s with _ | ⟨c, rest⟩
-  · simp [rs]
+  · tie_close [Gen.split_sign, JsOp.splitSign]
   · by_cases h1 : c = '-'
-    · subst h1; simp [rs]
+    · subst h1; tie_close [Gen.split_sign, JsOp.splitSign]
     · by_cases h2 : c = '+'
-      · subst h2; simp [rs]
-      · simp [rs, h1, h2]
+      · subst h2; tie_close [Gen.split_sign, JsOp.splitSign]
+      · unfold JsOp.splitSign; tie_close [Gen.split_sign, h1, h2]
 
 end JL.Tie
